@@ -94,6 +94,21 @@ def collector(nw=2, expected=("A", "A"), arrivals=3, retry_after=False, hold=Fal
     }}
 
 
+def two_buffers(nw=2):
+    """c (nw workers, accepts A and B) feeds TWO collect buffers from one invocation: every input goes to buffer x, A inputs
+    also to buffer y -- an invocation whose snapshot of x went stale (a sibling added to x meanwhile) while its snapshot of
+    y is still fresh is re-run on its slot; two more A wait in the queue."""
+    return {"timeout": None, "steps": {
+        "a": {"accepts": ["Start"], "nw": 1,
+              "body": [{"op": "send", "ty": "A", "n": 1}, {"op": "send", "ty": "B", "n": 1}, {"op": "send", "ty": "A", "n": 2, "uid_from": 1},
+                       G, {"op": "none"}]},
+        "c": {"accepts": ["A", "B"], "nw": nw,
+              "body": [G, {"op": "collect", "expected": ["A", "B", "A", "A"], "buf": "x", "cont": True},
+                       {"op": "collect", "expected": ["A", "A", "A"], "buf": "y", "only_ty": "A"}, {"op": "ret", "ty": "C"}]},
+        "z": {"accepts": ["C"], "nw": 1, "returns": ["Stop"], "body": [G, {"op": "none"}]},
+    }}
+
+
 def waiter(timeout=None, reqs=None, wev=True, nw=1, on_timeout="stop"):
     """a waits for a Resp (optionally with requirement k=1), then stops."""
     return {"timeout": None, "steps": {
@@ -294,6 +309,8 @@ def family(name, quick=True):
         for (nw, n, r, d, f) in grid:
             out.append(("fanout(nw=%d,n=%d,retry=%s,delay=%s,fail=%d)" % (nw, n, r, d, f),
                         fanout(nw, n, r, d, f, timeout=100), []))
+    elif name == "collect2":
+        out.append(("two_buffers(nw=2)", two_buffers(2), []))
     elif name == "equal_events":
         # distinct events with the same type and payload (compare equal): told apart only by being separate objects
         out.append(("fanout_dup(2,3)", fanout_dup(2, 3), []))
